@@ -1,8 +1,16 @@
 import Golem.Props.C10
+import Golem.Props.C10Gen
 open Golem.Props.C10
 #print axioms pool_reachable
+#print axioms pool_inv
 #print axioms forkfold_eq
 #print axioms forkfold_at_most_one
 #print axioms forkfold_closed_after_value
 #print axioms forkfold_no_panic
 #print axioms forkfold_closes
+#print axioms gen_forkfold_caps
+#print axioms gen_forkfold_workers
+#print axioms Golem.Props.Stage.ForkFold.stage_gen
+#print axioms Golem.Props.Stage.ForkFold.cfg_gen
+#print axioms Golem.Props.Stage.ForkFold.init_gen
+#print axioms Golem.Props.Stage.ForkFold.collector_gen
